@@ -206,7 +206,7 @@ fn run_shape(sh: &Shape, path: &str) -> Value {
             }
         };
         let mut out = vec![];
-        let cfg = if sh.full { ProbeCfg::FULL } else { ProbeCfg { all_range_pairs: false, range_filters: true, extra_next: 3, ..ProbeCfg::LIGHT } };
+        let cfg = if sh.full { ProbeCfg::FULL } else { ProbeCfg { all_range_pairs: false, range_filters: true, extra_next: 3, reuse: 3, ..ProbeCfg::LIGHT } };
         real::probe_bucket(&b, &m, &probes, cfg, &mut stats, &mut out);
         for x in out {
             mism.push(json!([x.class, x.detail]));
